@@ -184,6 +184,16 @@ impl Property for C01 {
                     rollbacks += 1;
                 }
             }
+            // State feature vector after each line: nesting depth x current font x whether the
+            // line rolled something back / assigned globally in a group.
+            ev.states.insert(format!(
+                "depth={} font={} rollback={} global_in_group={} err={}",
+                r.depth_after,
+                r.expect_font,
+                r.reach.contains(&"rollback_changed_state"),
+                r.reach.contains(&"global_assign_in_group"),
+                r.expect_err.is_some()
+            ));
         }
         if !trace.failures.is_empty() || trace.aborted.is_some() {
             // The checkpoint machinery failed: that is C08's subject; C01 does not judge the run.
